@@ -34,12 +34,9 @@ Definition int_checked_div (n d : list Z) : option (list Z) :=
   nz_and_then d (fst (int_checked_div_rem n d)).
 Definition int_rem (n d : list Z) : list Z := snd (int_checked_div_rem n d).
 
-(* checked_div_rem_floor / checked_div_rem_floor_vartime.
-   [resign_by_divisor = false] is the code of /repo as it stands: the remainder is negated by
-   [opposing_signs].  [true] negates it by the sign of the divisor instead (the variant for which
-   the floor identity is provable; see Proofs/IntDivP.v). *)
-Definition int_checked_div_rem_floor_gen (resign_by_divisor : bool) (n d : list Z)
-  : option (list Z) * list Z :=
+(* checked_div_rem_floor / checked_div_rem_floor_vartime: the quotient is negated when the signs
+   oppose, the remainder takes the sign of the divisor ([rhs_sgn]) *)
+Definition int_checked_div_rem_floor (n d : list Z) : option (list Z) * list Z :=
   let '(lm, ls) := int_abs_sign n in
   let '(rm, rs) := int_abs_sign d in
   let '(q, r) := ux_div_rem lm rm in
@@ -49,9 +46,7 @@ Definition int_checked_div_rem_floor_gen (resign_by_divisor : bool) (n d : list 
   let q' := select_limbs modify q q_plus_one in
   let inv_r := uint_wrapping_sub rm r in
   let r' := select_limbs modify r inv_r in
-  (int_new_from_abs_sign q' opposing_signs,
-   int_wrapping_neg_if r' (if resign_by_divisor then rs else opposing_signs)).
-Definition int_checked_div_rem_floor := int_checked_div_rem_floor_gen false.
+  (int_new_from_abs_sign q' opposing_signs, int_wrapping_neg_if r' rs).
 Definition int_checked_div_floor (n d : list Z) : option (list Z) :=
   nz_and_then d (fst (int_checked_div_rem_floor n d)).
 
